@@ -224,7 +224,7 @@ def _chunk(specs):
     return out
 
 
-GRAMMAR = {"quick": "thorough", "thorough": "deep"}  # the term grammars are cheap: quick already uses the larger one
+GRAMMAR = {"quick": "thorough", "thorough": "xdeep"}  # the term grammars are cheap: quick already uses the larger one
 
 
 def run(tier: str, seed: int) -> Result:
